@@ -89,17 +89,19 @@ Definition on_channel (ch : Z) (l : list pkt) : list pkt := filter (fun p => fst
 Definition ok_wire_udp (expected observed : list pkt) : bool :=
   forallb (fun ch => list_eqb pkt_eqb (on_channel ch expected) (on_channel ch observed)) [0; 1; 2; 3].
 
-(* transports: 0 rtsp/tcp  1 rtsp/udp  2 ws-rtsp  3 wsp  (4 http-flv, 5 ws-flv: see ok_flv) *)
+(* transports: 0 rtsp/tcp  1 rtsp/udp  2 ws-rtsp  3 wsp  6 rtsp/multicast (datagrams of the stream's
+   multicast proxy, observed like UDP)  (4 http-flv, 5 ws-flv: see ok_flv) *)
+Definition is_datagram_kind (kind : Z) : bool := (kind =? 1) || (kind =? 6).
 Definition udp_map (dest : Z -> bool) (ch : Z) : Z := if dest ch then ch else -1.
 
 Definition ok_wire (kind : Z) (chmap : Z -> Z) (out observed : list pkt) : bool :=
-  if kind =? 1 then ok_wire_udp (client_view chmap out) observed
+  if is_datagram_kind kind then ok_wire_udp (client_view chmap out) observed
   else ok_wire_stream (client_view chmap out) observed.
 
 (* the model's client: what the independent reader makes of the model's wire *)
 Definition model_client (kind : Z) (chmap : Z -> Z) (out : list pkt) : option (list pkt) :=
   if kind =? 0 then parse_frames (length out) (wire_tcp chmap out)
-  else if kind =? 1 then
+  else if is_datagram_kind kind then
     Some (concat (map (fun ch => map (fun d => (ch, d)) (wire_udp (fun c => 0 <=? chmap c) out ch)) [0; 1; 2; 3]))
   else parse_messages (wire_ws chmap out).
 
@@ -151,7 +153,7 @@ Inductive tev := TPublish | TAttach (i : nat) | TStop (i : nat) | TEnd.
    with an in-process reference consumer: [refs]) *)
 Definition cons_weight (refs : bool) (kind : Z) : Z :=
   if ((kind =? 4) || (kind =? 5)) && refs then 2 else 1.
-Definition is_rtsp_kind (kind : Z) : bool := (kind =? 0) || (kind =? 1) || (kind =? 2).
+Definition is_rtsp_kind (kind : Z) : bool := (kind =? 0) || (kind =? 1) || (kind =? 2) || (kind =? 6).
 Definition is_flv_kind (kind : Z) : bool := (kind =? 4) || (kind =? 5).
 Definition is_wsp_kind (kind : Z) : bool := kind =? 3.
 Definition b2z (b : bool) : Z := if b then 1 else 0.
